@@ -29,73 +29,6 @@ func (c c02Case) String() string {
 	return fmt.Sprintf("prefix=%s state=%s rollback-on=%s sdp=%s continue=%v", c.Prefix, c.State, side, c.SDPKind, c.Continue)
 }
 
-// c02Reach drives pc into the wanted state; returns false when that failed (inconclusive for that case).
-func c02Reach(pc *PeerConnection, r *kit.Rand, st SignalingState) error {
-	switch st {
-	case SignalingStateStable:
-		return nil
-	case SignalingStateHaveLocalOffer, SignalingStateHaveRemotePranswer:
-		o, err := pc.CreateOffer(nil)
-		if err != nil {
-			return err
-		}
-		if err = pc.SetLocalDescription(o); err != nil {
-			return err
-		}
-		if st == SignalingStateHaveLocalOffer {
-			return nil
-		}
-		a, err := jsepHelperAnswer(o)
-		if err != nil {
-			return err
-		}
-		a.Type = SDPTypePranswer
-
-		return pc.SetRemoteDescription(a)
-	default: // have-remote-offer, have-local-pranswer
-		o, err := jsepHelperOffer(r)
-		if err != nil {
-			return err
-		}
-		if err = pc.SetRemoteDescription(o); err != nil {
-			return err
-		}
-		if st == SignalingStateHaveRemoteOffer {
-			return nil
-		}
-		a, err := pc.CreateAnswer(nil)
-		if err != nil {
-			return err
-		}
-		a.Type = SDPTypePranswer
-
-		return pc.SetLocalDescription(a)
-	}
-}
-
-func c02Exchange(pc *PeerConnection, r *kit.Rand, asOfferer bool) error {
-	if asOfferer {
-		if err := c02Reach(pc, r, SignalingStateHaveLocalOffer); err != nil {
-			return err
-		}
-		a, err := jsepHelperAnswer(*pc.PendingLocalDescription())
-		if err != nil {
-			return err
-		}
-
-		return pc.SetRemoteDescription(a)
-	}
-	if err := c02Reach(pc, r, SignalingStateHaveRemoteOffer); err != nil {
-		return err
-	}
-	a, err := pc.CreateAnswer(nil)
-	if err != nil {
-		return err
-	}
-
-	return pc.SetLocalDescription(a)
-}
-
 func TestVerifC02(t *testing.T) { //nolint:cyclop,gocognit
 	run := kit.Start(t, "C02", "every non-stable state × rollback side × rollback SDP {empty, pending text, unrelated valid text} × prefix "+
 		"{fresh, after 1 exchange, after 2 exchanges, after a failed call}, plus rollback from stable; thorough repeats with seeded variation and "+
@@ -132,14 +65,14 @@ func TestVerifC02(t *testing.T) { //nolint:cyclop,gocognit
 		}
 		switch c.Prefix {
 		case "one-exchange", "two-exchanges":
-			if err := c02Exchange(pc, r, r.Bool()); err != nil {
+			if err := jsepExchange(pc, r, r.Bool()); err != nil {
 				fail("exchange1", err)
 
 				return
 			}
 			if c.Prefix == "two-exchanges" {
 				_, _ = pc.AddTransceiverFromKind(RTPCodecTypeVideo)
-				if err := c02Exchange(pc, r, r.Bool()); err != nil {
+				if err := jsepExchange(pc, r, r.Bool()); err != nil {
 					fail("exchange2", err)
 
 					return
@@ -150,7 +83,7 @@ func TestVerifC02(t *testing.T) { //nolint:cyclop,gocognit
 			_ = pc.SetLocalDescription(SessionDescription{Type: SDPTypeOffer, SDP: "garbage"})
 		}
 		_, stable := jsepObserve(pc)
-		if err := c02Reach(pc, r, c.State); err != nil {
+		if err := jsepReach(pc, r, c.State); err != nil {
 			fail("reach-"+c.State.String(), err)
 
 			return
@@ -219,7 +152,7 @@ func TestVerifC02(t *testing.T) { //nolint:cyclop,gocognit
 					fmt.Sprintf("%s: current slots %+v differ from the last stable snapshot %+v", c, slots, stable), i, detail)
 			}
 			if c.Continue && st == SignalingStateStable {
-				if e2 := c02Exchange(pc, r, r.Bool()); e2 != nil {
+				if e2 := jsepExchange(pc, r, r.Bool()); e2 != nil {
 					// not promised by the statement (C02 speaks of state and descriptions only): recorded, not judged
 					run.Count("model_divergence_exchange_after_rollback_failed", 1)
 					run.Seen("exchange_after_rollback_errors", firstN(e2.Error(), 80))
